@@ -1,4 +1,5 @@
 import SynapModel.Api
+import SynapModel.ConvTools
 /-!
 # The op catalogue of functional.py: forward value + `backward` closure of every wrapper
 
@@ -19,9 +20,19 @@ inductive Op (α : Type) where
   | squeeze (ax : Axes) | unsqueeze (axes : List Int)
   | reshape (target : List Int) | movedim (src dst : Int) | transpose (d0 d1 : Int)
   | flatten (startDim endDim : Int) | unfoldDim (dimension size step : Int)
+  -- nn/functional.py
+  | relu | leakyRelu (slope : α) | selu | tanh | sigmoid | softmax (dim : Int) | logSoftmax (dim : Int)
+  | mse | nll (labels : List Nat) | bce | bceLogits | crossEntropy (labels : List Nat)
+  | linear (hasBias : Bool)
+  | conv1d (hasBias : Bool) (s p d : Nat) | conv2d (hasBias : Bool) (s p d : Nat × Nat)
+  | maxPool1d (k s p d : Nat) | avgPool1d (k s p d : Nat)
+  | maxPool2d (k s p d : Nat × Nat) | avgPool2d (k s p d : Nat × Nat)
+  | unfold (k d s p : Nat × Nat) (pad : α) | fold (outSize k d s p : Nat × Nat)
+  /-- `running` = the running statistics handed to `F.batch_norm` (absent when not tracked) -/
+  | batchNorm (hasW hasB : Bool) (running : Option (List α × List α)) (training : Bool) (eps : α) (negInf : α)
 
 variable {α : Type} [Zero α] [One α] [Add α] [Sub α] [Mul α] [Div α] [Neg α] [NatCast α]
-  [OfScientific α] [LT α] [DecidableLT α] [Transc α]
+  [OfScientific α] [LT α] [DecidableLT α] [LE α] [DecidableLE α] [Transc α]
 
 /-- single-operand, single-output op -/
 def unary (v : NDArray α) (bw : NDArray α → Option (NDArray α)) : List (OpOut α) :=
@@ -93,6 +104,95 @@ def evalOp (op : Op α) (ins : List (NDArray α)) : Option (List (OpOut α)) :=
   | .unfoldDim d sz st, [a] => do
     let v ← unfoldDimForward a d sz st
     pure (unary v (fun g => unfoldDimBackward g a.shape d sz st))
+  -- ---------------------------------------------------------------- nn/functional.py
+  | .relu, [a] => some (unary (reluForward a) (fun g => some (reluBackward g a)))
+  | .leakyRelu sl, [a] => some (unary (leakyReluForward a sl) (fun g => some (leakyReluBackward g a sl)))
+  | .selu, [a] => some (unary (seluForward a seluAlpha seluScale) (fun g => some (seluBackward g a seluAlpha seluScale)))
+  | .tanh, [a] => let o := tanhForward a; some (unary o (fun g => some (tanhBackward g o)))
+  | .sigmoid, [a] => let o := sigmoidForward a; some (unary o (fun g => some (sigmoidBackward g o)))
+  | .softmax dim, [a] => do
+    let o ← softmaxForward a dim
+    pure (unary o (fun g => softmaxBackward g o dim))
+  | .logSoftmax dim, [a] => do
+    let o ← logSoftmaxForward a dim
+    pure (unary o (fun g => logSoftmaxBackward g o dim))
+  | .mse, [p, t] => do
+    let v ← mseForward p t
+    pure [⟨v, fun g => let (gp, gt) := mseBackward g p t; some [some gp, some gt]⟩]
+  | .nll labels, [p, _] => do
+    let v ← nllForward p labels
+    pure [⟨v, fun g => some [some (nllBackward g p labels), none]⟩]
+  | .bce, [p, t] => do
+    let v ← bceForward p t
+    pure [⟨v, fun g => (bceBackward g p t).map (fun r => [some r, none])⟩]
+  | .bceLogits, [x, y] => do
+    let v ← bceLogitsForward x y
+    pure [⟨v, fun g => (bceLogitsBackward g x y).map (fun r => [some r, none])⟩]
+  | .crossEntropy labels, [x, _] => do
+    let v ← crossEntropyForward x labels
+    pure [⟨v, fun g => (crossEntropyBackward g x labels).map (fun r => [some r, none])⟩]
+  | .linear true, [x, w, b] => do
+    let v ← linearForward x w (some b)
+    pure [⟨v, fun g => (linearBackward g x w (some b)).map (fun (gx, gw, gb) => [some gx, some gw, gb])⟩]
+  | .linear false, [x, w] => do
+    let v ← linearForward x w none
+    pure [⟨v, fun g => (linearBackward g x w none).map (fun (gx, gw, _) => [some gx, some gw])⟩]
+  | .conv1d true s p d, [x, w, b] => do
+    let v ← conv1dForward x w (some b) s p d
+    pure [⟨v, fun g => (conv1dBackward g x w true s p d).map (fun (gx, gw, gb) => [some gx, some gw, gb])⟩]
+  | .conv1d false s p d, [x, w] => do
+    let v ← conv1dForward x w none s p d
+    pure [⟨v, fun g => (conv1dBackward g x w false s p d).map (fun (gx, gw, _) => [some gx, some gw])⟩]
+  | .conv2d true s p d, [x, w, b] => do
+    let v ← conv2dForward x w (some b) s p d
+    pure [⟨v, fun g => (conv2dBackward g x w true s p d).map (fun (gx, gw, gb) => [some gx, some gw, gb])⟩]
+  | .conv2d false s p d, [x, w] => do
+    let v ← conv2dForward x w none s p d
+    pure [⟨v, fun g => (conv2dBackward g x w false s p d).map (fun (gx, gw, _) => [some gx, some gw])⟩]
+  | .maxPool1d k s p d, [x] => do
+    let v ← maxPool1dForward x (-(1 / (0 : α))) k s p d
+    pure (unary v (fun g => maxPool1dBackward g x k s p d))
+  | .avgPool1d k s p d, [x] => do
+    let v ← avgPool1dForward x k s p d
+    pure (unary v (fun g => avgPool1dBackward g x k s p d))
+  | .maxPool2d k s p d, [x] => do
+    let v ← maxPool2dForward x (-(1 / (0 : α))) k s p d
+    pure (unary v (fun g => maxPool2dBackward g x k s p d))
+  | .avgPool2d k s p d, [x] => do
+    let v ← avgPool2dForward x k s p d
+    pure (unary v (fun g => avgPool2dBackward g x k s p d))
+  | .unfold k d s p pad, [x] =>
+    match x.shape with
+    | [n, c, h, w] => do
+      let geo : ConvTools.Geom := ⟨n, c, h, w, k, s, p, d⟩
+      let v ← ConvTools.im2colView geo x pad
+      pure (unary v (fun g => ConvTools.col2imView geo g))
+    | _ => none
+  | .fold outSize k d s p, [x] =>
+    match x.shape with
+    | [n, ckk, _] =>
+      if k.1 * k.2 = 0 then none else
+      let geo : ConvTools.Geom := ⟨n, ckk / (k.1 * k.2), outSize.1, outSize.2, k, s, p, d⟩
+      do
+        let (lh, lw) ← geo.out
+        if x.shape != [n, geo.rows, lh * lw] then none
+        let v ← ConvTools.col2imView geo x
+        pure (unary v (fun g => ConvTools.im2colView geo g 0))
+    | _ => none
+  | .batchNorm hasW hasB running training eps _, x :: rest =>
+    let gamma := if hasW then rest.head? else none
+    let beta := if hasB then (if hasW then rest.getD 1 x else rest.headD x) |> some else none
+    if x.shape.length < 2 then none else
+    let useBatch := training || running.isNone
+    let ch := x.shape.getD 1 0
+    let n := if ch = 0 then 0 else x.shape.size / ch
+    if training && n ≤ 1 then none else
+    let mean : Nat → α := fun c => if useBatch then (bnStats x c).1 else (running.map (·.1.getD c 0)).getD 0
+    let var : Nat → α := fun c => if useBatch then (bnStats x c).2 else (running.map (·.2.getD c 1)).getD 1
+    let v := bnForward x gamma beta mean var eps
+    some [⟨v, fun g =>
+      let (dx, dg, db) := bnBackward g x gamma hasB useBatch mean var eps
+      some ([some dx] ++ (if hasW then [dg] else []) ++ (if hasB then [db] else []))⟩]
   | _, _ => none
 
 /-- apply an op to tensors of the store -/
